@@ -166,7 +166,6 @@ class CrashCase:
         old_bytes = self.init_files.get(self.target_rel)
         res["old_bytes"] = old_bytes
         final_names = dict(sim0.names)
-        inv = {}
         # model replay of every crash point
         inits = ";".join(f"{final_names[rel]}:{hx(c)}" for rel, c in self.init_files.items()) or "."
         req = "sim 0 %s %s %d %s %s" % ("!" if old_bytes is None else hx(old_bytes), hx(new_bytes),
@@ -340,7 +339,7 @@ def judge_crash_case(site, res, have_old, cov, viols, first_violation, stats, ca
         canon = f"{site}|{case_repr!r}|{n}|{view}"
         cov.case(canon, True,
                  sample=dict(stream=site, crash_before_op=n, of=len(res["ops"]), view=view, next_op=pt["next_op"],
-                             shape=res["shape"], loaded=pt["cls"], model=mcls) if stats["crash_points"] % 97 == 1 else None,
+                             shape=res["shape"], loaded=pt["cls"], model=mcls) if stats["crash_points"] % 401 == 1 else None,
                  **{f"{site}_view": view, f"{site}_next_op": pt["next_op"], f"{site}_loaded": pt["cls"],
                     f"{site}_shape": res["shape"]})
         replay = dict(site=site, case=case_repr, ops=[op_tok(o)[:80] for o in res["ops"]], names=res["names"],
